@@ -294,7 +294,7 @@ PROPS['C17'] = dict(
 )
 
 PROPS['C12'] = dict(
-    src='fuzz/C12_vm.cpp', variants=['fuzz'], level='exploration', driver='fuzzdriver', engine='libfuzzer',
+    src='fuzz/C12_vm.cpp', runner_src='fuzz/C12_run.cpp', variants=['fuzz'], level='exploration', driver='fuzzdriver', engine='libfuzzer',
     rule=('coverage-guided (libFuzzer) byte strings decoded into API programs: 8 index registers initialised from 16 constructions '
           '(raw, valid, pentagon, pentagon descendant, bit flips, wrong mode/reserved bits, planted 7, deleted sub-sequence, edge/vertex shaped, neighbours) '
           'followed by up to 12 calls over 60 API functions with class-decoded ints/doubles/polygons/cell sets and exactly-sized heap buffers; '
